@@ -182,7 +182,7 @@ term_re = re.compile(
             (?: \< \s* (?P<_ERROR>     [_A-Za-z][_A-Za-z0-9]* ) \s* \> )|
             (?:        (?P<_VARIABLE>  [_A-Za-z][_A-Za-z0-9]* )        )
         )
-        (?: \[ \s* (?P<INDEX> .*? ) \s* \] )?
+        (?: \s* \[ \s* (?P<INDEX> .*? ) \s* \] )?
     ''',
     re.VERBOSE,
 )  # fmt: skip
